@@ -17,8 +17,9 @@ func main() {
 	known := flag.String("known", "", "known findings file")
 	useCHA := flag.Bool("cha", false, "use the CHA call graph instead of VTA")
 	explain := flag.String("explain", "", "re-derive one violation record (path to its json)")
+	extra := flag.String("extra", "", "JSON file with thorough-tier extras to embed in the evidence")
 	flag.Parse()
-	os.Exit(lint.Main(lint.Options{Repo: *repo, Dump: *dump, Prop: *prop, Tier: *tier, EvidenceDir: *evidence, KnownFile: *known, UseCHA: *useCHA, Explain: *explain}))
+	os.Exit(lint.Main(lint.Options{Repo: *repo, Dump: *dump, Prop: *prop, Tier: *tier, EvidenceDir: *evidence, KnownFile: *known, UseCHA: *useCHA, Explain: *explain, Extra: *extra}))
 }
 
 var _ = fmt.Sprint
